@@ -87,7 +87,33 @@ def find_end_selector(crate, file_suffix):
                     r = peel_refs(n["r"])
                     if l.get("k") == "Field" and r.get("k") == "Field" and local_of(l["e"]) is not None and local_of(l["e"]) == local_of(r["e"]):
                         return str(l["name"])
+                    # `let (start, end) = self.bounds(); end - start` with a helper that hands out the view (or the
+                    # whole allocation) as a pair: the minuend's position in the pair names the end
+                    li, ri = local_of(l), local_of(r)
+                    if li is not None and ri is not None:
+                        for st in walk(b["body"]):
+                            if st.get("k") == "Let" and st.get("init") is not None and st["pat"].get("k") == "Tuple":
+                                ids = [q.get("id") if q.get("k") == "Binding" else None for q in st["pat"]["pats"]]
+                                if li in ids and ri in ids:
+                                    init = peel(st["init"])
+                                    if init.get("k") == "MethodCall":
+                                        hb = crate.hir.get(callee(init) or "")
+                                        if hb is not None and _hands_out_view(hb):
+                                            return str(ids.index(li))
     return None
+
+
+def _hands_out_view(fn):
+    """a `&self` helper whose result is the view itself where there is one: `match self.view { Some(view) => view, None =>
+    (0, self.alloc.len()) }` / `self.view.unwrap_or(..)` / `self.view.map_or(.., |view| view)`"""
+    from hirlib import place_path
+
+    for x in walk(fn["body"]):
+        if x.get("k") == "Field" and x.get("name") == "view":
+            p = place_path(x)
+            if p and p[1] == "self":
+                return True
+    return False
 
 
 def rule_listview(crate, file_suffix="numbat/src/list.rs"):
@@ -341,6 +367,10 @@ def rule_viewread(crate, file_suffix="numbat/src/list.rs"):
             for x in walk(e):
                 if x.get("k") == "Field" and is_view(x):
                     return True
+                if x.get("k") == "MethodCall" and local_of(x["recv"]) in self_ids:
+                    hb = crate.hir.get(callee(x) or "")
+                    if hb is not None and crate.file_of(hb).endswith(file_suffix) and not hb["def"].endswith("::make_mut") and _hands_out_view(hb) and (hb.get("param_tys") or ["&mut"])[0].startswith("&") and not (hb.get("param_tys") or ["&mut"])[0].startswith("&mut"):
+                        return True  # `self.bounds()`: a read-only helper that hands out the view window
                 if x.get("k") == "Path" and x["res"].get("r") == "local" and x["res"]["id"] in view_locals:
                     return True
             return False
